@@ -61,7 +61,7 @@ def main():
             os.rename(p, p[: -len(".pending")])
             moved.append(os.path.basename(p)[: -len(".pending")])
     # known file
-    kf = os.path.join(ROOT, "known", f"{prop}.txt")
+    kf = os.path.join(ROOT, "known_findings.txt")
     texts = []
     if os.path.exists(kf):
         keep = []
